@@ -309,7 +309,7 @@ def roundtrip_failures(n, seed, limit=3):
         ncoord = i % 5
         for k in range(ncoord):
             da.coords[f'c{k}'] = sc.array(dims=['x'], values=rng.normal(size=rows))
-        hdr = headers[i % len(headers)]
+        hdr = headers[(i // 2) % len(headers)]     # headers are used by the odd cases: index them independently of the parity
         desc = {'id': f'case{i}', 'index': i, 'seed': seed, 'rows': rows, 'header': hdr[:30], 'coords': ncoord + 1, 'target': 'path' if i % 3 == 0 else 'file object',
                 'data_dtype': ddt, 'coord_dtype': cdt}
         before = da.copy(deep=True)
@@ -357,6 +357,7 @@ def roundtrip_failures(n, seed, limit=3):
             fails.append({**desc, 'problem': prob})
             if len(fails) >= limit:
                 break
+    fails += header_failures(limit - len(fails)) if len(fails) < limit else []
     # refusals on the real objects
     base = sc.DataArray(sc.array(dims=['x'], values=[1.0, 2.0], variances=[1.0, 1.0]), coords={'x': sc.array(dims=['x'], values=[0.0, 1.0])})
     refusals = {
@@ -378,13 +379,66 @@ def roundtrip_failures(n, seed, limit=3):
     return fails[:limit]
 
 
+def header_failures(limit=10 ** 6):
+    """'arbitrary ASCII headers': every one of the 128 ASCII characters inside a header line, followed on the same line by text that
+    looks like a table row and by text that does not; file-object, path and compressed-path targets.  The table that comes back is
+    the table that was saved."""
+    import io
+    import os
+    import shutil
+    import tempfile
+    import numpy as np
+    import scipp as sc
+    from vf.realrun import real_module
+    xye = real_module('io.xye')
+    xs, vals, var = np.array([10.0, 20.0, 30.5]), np.array([1.0, -2.5, 1 / 3]), np.array([0.1, 0.2, 0.3])
+    da = sc.DataArray(sc.array(dims=['x'], values=vals, variances=var, unit='counts'), coords={'x': sc.array(dims=['x'], values=xs, unit='m')})
+    work = os.path.join(os.path.dirname(os.path.dirname(os.path.abspath(__file__))), '.work')
+    d = tempfile.mkdtemp(prefix='xyeh', dir=work if os.path.isdir(work) else None)
+    fails = []
+    try:
+        seps = [chr(c) for c in range(128)] + ['\r\n', '\n\r', '\r\r', '\x0c\n', '\n#', '#\r']
+        for sep in seps:
+            for tail in ('1 2 3', 'not a row'):
+                hdr = f'run 4711{sep}{tail}'
+                for target in ('file object', 'path', 'path.gz'):
+                    ident = f'header:{"+".join(str(ord(c)) for c in sep)}:{tail}:{target}'
+                    try:
+                        if target == 'file object':
+                            f = io.StringIO()
+                            xye.save_xye(f, da, header=hdr)
+                            f.seek(0)
+                            back = xye.load_xye(f, dim='x', unit='counts', coord_unit='m')
+                        else:
+                            path = os.path.join(d, 'h.xye' + ('.gz' if target.endswith('.gz') else ''))
+                            xye.save_xye(path, da, header=hdr)
+                            back = xye.load_xye(path, dim='x', unit='counts', coord_unit='m')
+                            os.unlink(path)
+                    except Exception as e:  # noqa: BLE001
+                        fails.append({'id': ident, 'header': repr(hdr), 'target': target, 'problem': f'raised {type(e).__name__}: {e}'[:300]})
+                        continue
+                    if back.sizes != {'x': 3}:
+                        fails.append({'id': ident, 'header': repr(hdr), 'target': target, 'problem': f'3 rows saved, {dict(back.sizes)} loaded: the header interferes with the table'})
+                    elif not (np.array_equal(back.coords['x'].values, xs) and np.array_equal(back.values, vals)):
+                        fails.append({'id': ident, 'header': repr(hdr), 'target': target, 'problem': 'table changed by the header'})
+                    if len(fails) >= limit:
+                        return fails
+    finally:
+        shutil.rmtree(d, ignore_errors=True)
+    return fails
+
+
 def bounded_roundtrips(chk):
     n = 120 if chk.tier == 'quick' else 3000
     fails = roundtrip_failures(n, 95 + chk.seed)
     chk.bounded_check('real-round-trips', 'real save_xye / load_xye: coordinate and values bit for bit, variances within 4 unit roundoffs, hostile headers, 1..1e4 rows, '
-                      'subnormal / extreme / random-bit-pattern values, path and file-object targets, refusals', f'{n} round trips (1..1e4 rows) + 6 refusals', n + 6, fails)
+                      'subnormal / extreme / random-bit-pattern values, path and file-object targets, refusals; every ASCII character in a header line x 2 continuations x 3 targets', f'{n} round trips (1..1e4 rows) + 804 header round trips + 6 refusals', n + 810, fails)
 
 
 def replay(rec):
+    f = rec.get('meta', {}).get('replay') or {}
+    if str(f.get('id', '')).startswith('header:'):
+        hit = [x for x in header_failures() if x['id'] == f['id']]
+        return {'reproduced': bool(hit), 'cases': hit[:1]}
     fails = roundtrip_failures(200, 95, limit=2)
     return {'reproduced': bool(fails), 'cases': fails[:2]}
